@@ -43,6 +43,20 @@ BASES = [
         ("calc", dict(type="calculate", name="t4", calculation="1 + 1")),
         ("selm", dict(type="select_multiple M", name="t5", label="T5")),
     ],
+    [
+        ("text", dict(type="text", name="u1", label="U1")),
+        ("begin_repeat", dict(type="begin repeat", name="ur", label="UR")),
+        ("begin_group", dict(type="begin group", name="ug", label="UG")),
+        ("text", dict(type="text", name="u2", label="U2")),
+        ("begin_group", dict(type="begin group", name="uh", label="UH")),
+        ("int", dict(type="integer", name="u3", label="U3")),
+        ("end_group", dict(type="end group")),
+        ("end_group", dict(type="end group")),
+        ("calc", dict(type="calculate", name="u4", calculation="1 + 2")),
+        ("end_repeat", dict(type="end repeat")),
+        ("sel1", dict(type="select_one L", name="u5", label="U5")),
+        ("selm", dict(type="select_multiple M", name="u6", label="U6")),
+    ],
 ]
 BASE_CHOICES = [["L", "l1", "One", "a"], ["L", "l2", "Two", "b"], ["L", "l3", "Three", None], ["M", "m1", "Uno", None], ["M", "m2", "Dos", None]]
 
@@ -239,6 +253,18 @@ def apply(mid: str, m: dict, i: int):
         r["type"] = "select_one_from_file d.csv"
         r["appearance"] = "search('d')"
         return [r["name"]]
+    if mid == "save_to_in_repeat":
+        r["save_to"] = "prop"
+        m["extra_sheets"].append({"name": "entities", "header": ["dataset", "label"], "rows": [["e1", "a"]]})
+        return []
+    if mid == "missing_type_label_only":
+        del r["type"]
+        del r["name"]
+        return []
+    if mid == "missing_type_name_only":
+        del r["type"]
+        del r["label"]
+        return []
     if mid == "save_to_without_entities":
         r["save_to"] = "prop"
         return []
